@@ -1414,7 +1414,7 @@ class Frame(object):
             return False
         env2 = dict(self.env)
         merged = {}
-        for k in set(env1.keys()) | set(env2.keys()):
+        for k in sorted(set(env1.keys()) | set(env2.keys())):
             if k in env1 and k in env2:
                 a, b = env1[k], env2[k]
                 if a is b:
